@@ -80,8 +80,35 @@ func ColVal(id int64, j int, typ string, isID bool) interface{} {
 		return float32(b%1000000) + 0.5
 	case "f8":
 		return float64(b) + 0.25
+	case "U16":
+		// string16 (CSV import only): a short word derived from the id
+		return Str16(fmt.Sprintf("m%dz", b%100000))
 	}
 	panic("harness: unknown column type " + typ)
+}
+
+// Str16 is the stored form of a string16 value.
+func Str16(s string) [16]rune {
+	var a [16]rune
+	for i, c := range []rune(s) {
+		if i >= 16 {
+			break
+		}
+		a[i] = c
+	}
+	return a
+}
+
+// Str16Text renders a stored string16 value.
+func Str16Text(a [16]rune) string {
+	var sb strings.Builder
+	for _, c := range a {
+		if c == 0 {
+			break
+		}
+		sb.WriteRune(c)
+	}
+	return sb.String()
 }
 
 // wideValues (C14): column values also come from the edges of each type's
@@ -233,6 +260,8 @@ func sliceLen(sl interface{}) int {
 		return len(s)
 	case []bool:
 		return len(s)
+	case [][16]rune:
+		return len(s)
 	}
 	return -1
 }
@@ -260,6 +289,8 @@ func sliceAt(sl interface{}, i int) interface{} {
 	case []float64:
 		return s[i]
 	case []bool:
+		return s[i]
+	case [][16]rune:
 		return s[i]
 	}
 	return nil
